@@ -42,6 +42,9 @@ class VerifOwnCtorError(exceptions.JsonRpcError):
 
 
 # how the method raises its protocol error: through the base class, or through a typed class whose instance overrides code / message
+_VARLOCK = __import__('threading').Lock()
+
+
 class CtxLocal:
     """attributes kept per thread AND per asyncio task (context variables): a task started by the dispatcher inherits the
     values of the code that started it, a nested dispatch inside a method can set its own without disturbing its siblings"""
@@ -53,7 +56,9 @@ class CtxLocal:
         import contextvars
         vs = object.__getattribute__(self, '_vars')
         if k not in vs:
-            vs[k] = contextvars.ContextVar('verif_' + k)
+            with _VARLOCK:          # two threads asking for a new name at once must get ONE variable
+                if k not in vs:
+                    vs[k] = contextvars.ContextVar('verif_' + k)
         return vs[k]
 
     def __getattr__(self, k):
